@@ -204,8 +204,20 @@ static void leastVariance(vh::Rng & r, int type, vh::Out & out)
   }
   NormalSet<PT> normals(cloud.size()), normals2(cloud.size()); std::vector<S> curv(cloud.size());
   NormalAndCurvatureEstimation<PT> est((size_t)k);
-  est.compute(cloud, normals, curv);
-  est.compute(cloud, normals2);
+  // the overloads that build their own kd-tree, or one caller-owned tree that other estimators (other neighbourhood sizes) and
+  // plain queries have used before
+  const int via = (int)r.range(0, 2);
+  if (via == 0) {est.compute(cloud, normals, curv); est.compute(cloud, normals2);}
+  else {
+    KdTree<PT> tree(cloud);
+    const int k0 = via == 1 ? std::max(3, k - (int)r.range(1, 12)) : std::min(n - 1, k + (int)r.range(1, 12));
+    NormalAndCurvatureEstimation<PT> other((size_t)k0);
+    NormalSet<PT> tmp(cloud.size()); std::vector<S> tmpc(cloud.size()), rel(cloud.size());
+    other.compute(cloud, tree, tmp, tmpc);
+    size_t qi; S qd; tree.findNearestNeighbor(cloud[0], qi, qd);
+    if (r.coin()) {est.compute(cloud, tree, normals, curv);} else {est.compute(cloud, tree, normals, curv, rel);}
+    est.compute(cloud, tree, normals2);
+  }
   double maxSin = 0, maxCurv = 0; int checked = 0; bool sameOverloads = true;
   std::vector<std::pair<double, int>> d(n);
   for (int t = 0; t < 60; ++t) {
